@@ -268,3 +268,349 @@ CONTROLS['C05'] = [
       "            _RP_TBL.c.generation == gen,\n"
       "            _RP_TBL.c.id == self.id)).values("),
 ]
+
+HA = H + 'allocation.py'
+HU = H + 'util.py'
+CONTROLS['C04'] = [
+    M('c04-unscope-put-closure', HA,
+      "    @db_api.placement_context_manager.writer\n"
+      "    def _update_consumers_and_create_allocations(ctx):\n"
+      "        # Update consumer attributes if requested attributes are different.\n"
+      "        # NOTE(melwitt): This will not raise ConcurrentUpdateDetected, that\n"
+      "        # happens later in AllocationList.replace_all()\n"
+      "        data_util.update_consumers([consumer], {consumer_uuid: request_attr})",
+      "    def _update_consumers_and_create_allocations(ctx):\n"
+      "        # Update consumer attributes if requested attributes are different.\n"
+      "        # NOTE(melwitt): This will not raise ConcurrentUpdateDetected, that\n"
+      "        # happens later in AllocationList.replace_all()\n"
+      "        data_util.update_consumers([consumer], {consumer_uuid: request_attr})",
+      'R4.2'),
+    B('c04-benign-unscope-inner-reshape', O + 'reshaper.py',
+      "@db_api.placement_context_manager.writer\ndef reshape(ctx, inventories, allocations):",
+      "def reshape(ctx, inventories, allocations):"),
+    M2('c04-unscope-reshape-both',
+       [(O + 'reshaper.py',
+         "@db_api.placement_context_manager.writer\ndef reshape(ctx, inventories, allocations):",
+         "def reshape(ctx, inventories, allocations):"),
+        (H + 'reshaper.py',
+         "    @db_api.placement_context_manager.writer\n    def _update_consumers_and_create_allocations(ctx):",
+         "    def _update_consumers_and_create_allocations(ctx):")], 'R4.2'),
+    M('c04-drop-cleanup-post', HA,
+      "        except Exception:\n            with excutils.save_and_reraise_exception():\n"
+      "                delete_consumers(new_consumers_created)\n\n    try:\n        _create_allocations()\n    except exception.NotFound as exc:\n"
+      "        raise webob.exc.HTTPBadRequest(\n            \"Unable to allocate inventory %(error)s\"",
+      "        except Exception:\n            with excutils.save_and_reraise_exception():\n"
+      "                pass\n\n    try:\n        _create_allocations()\n    except exception.NotFound as exc:\n"
+      "        raise webob.exc.HTTPBadRequest(\n            \"Unable to allocate inventory %(error)s\"",
+      'R4.3'),
+    M('c04-reintroduce-F6-post', HA,
+      "    try:\n        allocations = create_allocation_list(context, data, consumers)\n"
+      "    except Exception:\n"
+      "        # Do not leave the consumers we auto-created behind when the request\n"
+      "        # is rejected before we even try to write the allocations.\n"
+      "        with excutils.save_and_reraise_exception():\n"
+      "            delete_consumers(new_consumers_created)\n",
+      "    allocations = create_allocation_list(context, data, consumers)\n",
+      'R4.3'),
+    M2('c04-reintroduce-F6-put',
+       [(HA, "    rp_objs = _resource_providers_by_uuid(context, allocation_data.keys())\n\n"
+             "    allocation_objects = []", "    allocation_objects = []"),
+        (HA, "            data.get('consumer_type'), want_version))\n\n    if not allocation_data:",
+             "            data.get('consumer_type'), want_version))\n"
+             "    rp_objs = _resource_providers_by_uuid(context, allocation_data.keys())\n\n"
+             "    if not allocation_data:")], 'R4.3'),
+    M('c04-cleanup-wrong-list', H + 'reshaper.py',
+      "                allocation.delete_consumers(new_consumers_created)\n\n    try:\n        _create_allocations()",
+      "                allocation.delete_consumers([])\n\n    try:\n        _create_allocations()",
+      'R4.3'),
+    M('c04-swallow-in-scope', HA,
+      "        alloc_obj.replace_all(ctx, allocations)\n        LOG.debug(\"Successfully wrote allocations %s\", allocations)",
+      "        try:\n            alloc_obj.replace_all(ctx, allocations)\n"
+      "        except exception.InvalidInventory:\n            pass\n"
+      "        LOG.debug(\"Successfully wrote allocations %s\", allocations)",
+      'R4.'),
+    M('c04-swallow-in-object-layer', RP,
+      "    if to_delete:\n        _delete_inventory_from_provider(context, rp, to_delete)\n    if to_add:\n        _add_inventory_to_provider(context, rp, inv_list, to_add)",
+      "    if to_delete:\n        try:\n            _delete_inventory_from_provider(context, rp, to_delete)\n"
+      "        except exception.InventoryInUse:\n            LOG.warning('in use')\n"
+      "    if to_add:\n        _add_inventory_to_provider(context, rp, inv_list, to_add)",
+      'R4.4'),
+    M('c04-raw-write-in-handler', H + 'trait.py',
+      "    resource_provider = rp_obj.ResourceProvider.get_by_uuid(context, uuid)\n    try:\n        resource_provider.set_traits([])",
+      "    resource_provider = rp_obj.ResourceProvider.get_by_uuid(context, uuid)\n"
+      "    rp_obj._delete_traits_from_provider(context, resource_provider.id, [1])\n"
+      "    try:\n        resource_provider.set_traits([])",
+      'R4.1'),
+    M('c04-two-transactions', H + 'inventory.py',
+      "        resource_provider.set_inventory([])\n    except exception.ConcurrentUpdateDetected:",
+      "        resource_provider.set_inventory([])\n        resource_provider.set_traits([])\n    except exception.ConcurrentUpdateDetected:",
+      'R4.2'),
+    M('c04-error-by-status', H + 'resource_class.py',
+      "    req.response.status = status\n    req.response.content_type = None\n    req.response.location = util.resource_class_url(req.environ, rc)",
+      "    req.response.status = 409 if status == 204 else status\n    req.response.content_type = None\n    req.response.location = util.resource_class_url(req.environ, rc)",
+      'R4.5'),
+    M('c04-inspect-no-cleanup', HA,
+      "            with excutils.save_and_reraise_exception():\n                delete_consumers(new_consumers_created)\n    return consumers, new_consumers_created, requested_attrs",
+      "            raise\n    return consumers, new_consumers_created, requested_attrs",
+      'R4.3'),
+    B('c04-benign-rename-closure', H + 'reshaper.py',
+      "    def _create_allocations():\n        try:\n"
+      "            # NOTE(melwitt): Group the consumer and allocation database updates\n"
+      "            # in a single transaction so that updates get rolled back\n"
+      "            # automatically in the event of a consumer generation conflict.\n"
+      "            _update_consumers_and_create_allocations(context)\n"
+      "        except Exception:\n"
+      "            with excutils.save_and_reraise_exception():\n"
+      "                allocation.delete_consumers(new_consumers_created)\n\n"
+      "    try:\n        _create_allocations()",
+      "    def _write():\n        try:\n"
+      "            _update_consumers_and_create_allocations(context)\n"
+      "        except Exception:\n"
+      "            with excutils.save_and_reraise_exception():\n"
+      "                allocation.delete_consumers(new_consumers_created)\n\n"
+      "    try:\n        _write()"),
+]
+
+CONTROLS['C06'] = [
+    M('c06-drop-generation-conjunct', O + 'consumer.py',
+      "        upd_stmt = CONSUMER_TBL.update().where(sa.and_(\n"
+      "            CONSUMER_TBL.c.id == self.id,\n"
+      "            CONSUMER_TBL.c.generation == consumer_gen)).values(",
+      "        upd_stmt = CONSUMER_TBL.update().where(sa.and_(\n"
+      "            CONSUMER_TBL.c.id == self.id)).values(", 'R6.1'),
+    M('c06-rowcount-zero-ok', O + 'consumer.py',
+      "        if res.rowcount != 1:\n            raise exception.ConcurrentUpdateDetected",
+      "        if res.rowcount > 1:\n            raise exception.ConcurrentUpdateDetected",
+      'R6.1'),
+    M('c06-drop-compare', HU,
+      "        if requires_consumer_generation:\n            if consumer.generation != consumer_generation:",
+      "        if requires_consumer_generation and consumer_type:\n            if consumer.generation != consumer_generation:",
+      'R6.2'),
+    M('c06-compare-wrong-gate', HU,
+      "    requires_consumer_generation = want_version.matches((1, 28))",
+      "    requires_consumer_generation = want_version.matches((1, 29))",
+      'R6.2'),
+    M('c06-reintroduce-F3', HU,
+      "            ctx, consumer_uuid, proj, user, cons_type_id,\n            expect_new=requires_consumer_generation)",
+      "            ctx, consumer_uuid, proj, user, cons_type_id)", 'R6.2'),
+    M('c06-F3-flag-inverted', HU,
+      "        if expect_new:\n", "        if not expect_new:\n", 'R6.2'),
+    M('c06-drop-null-check', HU,
+      "            if consumer_generation is not None:\n                raise webob.exc.HTTPConflict(",
+      "            if consumer_generation is not None and consumer_type:\n                raise webob.exc.HTTPConflict(",
+      'R6.2'),
+    M('c06-update-writes-generation', O + 'consumer.py',
+      "                consumer_type_id=self.consumer_type_id)\n            # NOTE(jaypipes): We add",
+      "                consumer_type_id=self.consumer_type_id,\n"
+      "                generation=self.generation + 1)\n            # NOTE(jaypipes): We add",
+      'R6.3'),
+    M('c06-reintroduce-F11-put', HA,
+      "            allocation.used = 0\n"
+      "            # Write with the consumer whose generation has been checked\n"
+      "            # against the request, not the one re-read just now.\n"
+      "            allocation.consumer = consumer\n",
+      "            allocation.used = 0\n", 'R6.4'),
+    M('c06-reintroduce-F11-post', HA,
+      "                allocation.used = 0\n"
+      "                # Write with the consumer whose generation has been checked\n"
+      "                # against the request, not the one re-read just now.\n"
+      "                allocation.consumer = consumer\n",
+      "                allocation.used = 0\n", 'R6.4'),
+    M('c06-new-allocs-reread-consumer', HA,
+      "                new_allocations = _new_allocations(context,\n"
+      "                                                   resource_provider,\n"
+      "                                                   consumer,\n"
+      "                                                   resources)",
+      "                fresh = consumer_obj_get(context, consumer_uuid)\n"
+      "                new_allocations = _new_allocations(context,\n"
+      "                                                   resource_provider,\n"
+      "                                                   fresh,\n"
+      "                                                   resources)", 'R6.4'),
+    M('c06-skip-consumer-increments', O + 'allocation.py',
+      "    for consumer in visited_consumers.values():\n        consumer.increment_generation()\n",
+      "    for consumer in visited_consumers.values():\n        if consumer.generation:\n"
+      "            consumer.increment_generation()\n", 'R6.3'),
+    M('c06-duplicate-not-mapped', O + 'consumer.py',
+      "            except db_exc.DBDuplicateEntry:\n                raise exception.ConsumerExists(uuid=self.uuid)",
+      "            except db_exc.DBDuplicateEntry:\n                raise exception.ConsumerNotFound(uuid=self.uuid)",
+      'R6.3'),
+    B('c06-benign-compare-sides', HU,
+      "            if consumer.generation != consumer_generation:",
+      "            if consumer_generation != consumer.generation:"),
+]
+
+OA = O + 'allocation.py'
+CONTROLS['C01'] = [
+    M('c01-drop-max-unit', OA,
+      "        if (amount_needed < min_unit or amount_needed > max_unit or\n"
+      "                amount_needed % step_size != 0):",
+      "        if (amount_needed < min_unit or\n"
+      "                amount_needed % step_size != 0):", 'R1.3'),
+    M('c01-max-unit-ge', OA,
+      "amount_needed < min_unit or amount_needed > max_unit or",
+      "amount_needed < min_unit or amount_needed >= max_unit or", 'R1.3'),
+    M('c01-capacity-ignores-request', OA,
+      "        if (capacity < (used + amount_needed) or\n"
+      "                capacity < (used + rp_resource_class_sum[rp_uuid][rc_id])):",
+      "        if capacity < used:", 'R1.3'),
+    M('c01-capacity-drops-running-sum', OA,
+      "        if (capacity < (used + amount_needed) or\n"
+      "                capacity < (used + rp_resource_class_sum[rp_uuid][rc_id])):",
+      "        if capacity < (used + amount_needed):", 'R1.3'),
+    M('c01-capacity-le', OA,
+      "capacity < (used + rp_resource_class_sum[rp_uuid][rc_id])):",
+      "capacity <= (used + rp_resource_class_sum[rp_uuid][rc_id])):", 'R1.3'),
+    M('c01-reserved-omitted', OA,
+      "        capacity = (usage.total - usage.reserved) * allocation_ratio",
+      "        capacity = usage.total * allocation_ratio", 'R1.3'),
+    M('c01-skip-widened', OA,
+      "        if amount_needed == 0:\n            continue\n        key = (rp_uuid, rc_id)",
+      "        if amount_needed <= 1:\n            continue\n        key = (rp_uuid, rc_id)",
+      'R1.3'),
+    M('c01-missing-inventory-skipped', OA,
+      "        except KeyError:\n            # The resource class at rc_id is not in the usage map.\n"
+      "            raise exception.InvalidInventory(\n"
+      "                resource_class=alloc.resource_class,\n"
+      "                resource_provider=rp_uuid)",
+      "        except KeyError:\n            # The resource class at rc_id is not in the usage map.\n"
+      "            continue", 'R1.3'),
+    M('c01-check-before-delete', OA,
+      "    consumer_ids = set(alloc.consumer.uuid for alloc in allocs)\n"
+      "    for consumer_id in consumer_ids:\n"
+      "        _delete_allocations_for_consumer(context, consumer_id)\n",
+      "    visited_rps = _check_capacity_exceeded(context, allocs)\n"
+      "    consumer_ids = set(alloc.consumer.uuid for alloc in allocs)\n"
+      "    for consumer_id in consumer_ids:\n"
+      "        _delete_allocations_for_consumer(context, consumer_id)\n",
+      'R1.2'),
+    M('c01-check-positive-only', OA,
+      "    visited_rps = _check_capacity_exceeded(context, allocs)\n    for alloc in allocs:",
+      "    visited_rps = _check_capacity_exceeded(\n        context, [a for a in allocs if a.used > 1])\n    for alloc in allocs:",
+      'R1.2'),
+    M('c01-second-writer', OA,
+      "    _delete_allocations_by_ids(context, alloc_ids)\n",
+      "    _delete_allocations_by_ids(context, alloc_ids)\n"
+      "    context.session.execute(_ALLOC_TBL.insert().values(used=0))\n",
+      'R1.1'),
+    M('c01-swallow-in-replace-all', OA,
+      "        except exception.ResourceProviderConcurrentUpdateDetected:\n            LOG.debug('Retrying",
+      "        except exception.InvalidInventory:\n            break\n"
+      "        except exception.ResourceProviderConcurrentUpdateDetected:\n            LOG.debug('Retrying",
+      'R1.2', accept_analysis_error=True),
+    M('c01-schema-minimum-zero', 'placement/schemas/allocation.py',
+      "                            common.RC_PATTERN: {\n"
+      "                                \"type\": \"integer\",\n"
+      "                                \"minimum\": 1,\n"
+      "                            }\n                        },\n"
+      "                        \"additionalProperties\": False\n                    }\n                },\n"
+      "                \"required\": [\n                    \"resource_provider\",",
+      "                            common.RC_PATTERN: {\n"
+      "                                \"type\": \"integer\",\n"
+      "                                \"minimum\": 0,\n"
+      "                            }\n                        },\n"
+      "                        \"additionalProperties\": False\n                    }\n                },\n"
+      "                \"required\": [\n                    \"resource_provider\",",
+      'R1.5'),
+    M('c01-schema-number', 'placement/schemas/allocation.py',
+      "                                common.RC_PATTERN: {\n"
+      "                                    \"type\": \"integer\",",
+      "                                common.RC_PATTERN: {\n"
+      "                                    \"type\": \"number\",", 'R1.5'),
+    M('c01-reshape-final-first', O + 'reshaper.py',
+      "    # Now we can replace all the allocations\n"
+      "    LOG.debug(\"reshaping: attempting allocation replacement\")\n"
+      "    alloc_obj.replace_all(ctx, allocations)\n",
+      "", 'R1.4'),
+    M('c01-inuse-guard-dropped', RP,
+      "    if allocations:\n        resource_classes = ', '.join(",
+      "    if allocations and len(to_delete) > 1:\n        resource_classes = ', '.join(",
+      'R1.4'),
+    B('c01-benign-rename', OA,
+      "        amount_needed = alloc.used\n        rp_resource_class_sum[rp_uuid][rc_id] += amount_needed\n",
+      "        amount_needed = alloc.used\n        rp_resource_class_sum[rp_uuid][rc_id] += alloc.used\n"),
+    B('c01-benign-rewrite', OA,
+      "        if (capacity < (used + amount_needed) or\n"
+      "                capacity < (used + rp_resource_class_sum[rp_uuid][rc_id])):",
+      "        if (used + rp_resource_class_sum[rp_uuid][rc_id]) > capacity:"),
+    B('c01-benign-constraint-order', OA,
+      "        if (amount_needed < min_unit or amount_needed > max_unit or\n"
+      "                amount_needed % step_size != 0):",
+      "        if (amount_needed % step_size != 0 or max_unit < amount_needed\n"
+      "                or min_unit > amount_needed):"),
+]
+
+CONTROLS['C08'] = [
+    M('c08-drop-inuse-raise', RP,
+      "        raise exception.InventoryInUse(resource_classes=resource_classes,\n"
+      "                                       resource_provider=rp.uuid)\n",
+      "        LOG.warning('in use: %s', resource_classes)\n", 'R8.2'),
+    M('c08-consumer-delete-without-null', O + 'consumer.py',
+      "    subq = subq.where(sa.and_(\n        _ALLOC_TBL.c.consumer_id.is_(None),\n",
+      "    subq = subq.where(sa.and_(\n", 'R8.2'),
+    M('c08-no-trait-cascade', RP,
+      "        context.session.query(RPT_model).filter(\n"
+      "            RPT_model.resource_provider_id == _id).delete()\n", "",
+      'R8.3'),
+    M('c08-raw-delete-in-handler', H + 'inventory.py',
+      "    resource_provider = rp_obj.ResourceProvider.get_by_uuid(\n        context, uuid)\n\n    try:\n        resource_provider.set_inventory([])",
+      "    resource_provider = rp_obj.ResourceProvider.get_by_uuid(\n        context, uuid)\n"
+      "    context.session.execute(rp_obj._INV_TBL.delete())\n\n    try:\n        resource_provider.set_inventory([])",
+      'R8.1'),
+    M('c08-inuse-as-400', H + 'resource_provider.py',
+      "    except exception.ResourceProviderInUse as exc:\n        raise webob.exc.HTTPConflict(",
+      "    except exception.ResourceProviderInUse as exc:\n        raise webob.exc.HTTPBadRequest(",
+      'R8.5'),
+    M('c08-inuse-unmapped', H + 'resource_class.py',
+      "    except exception.ResourceClassInUse as exc:\n        raise webob.exc.HTTPConflict(\n"
+      "            'Error in delete resource class: %(error)s' % {'error': exc})\n",
+      "", 'R8.5'),
+    M('c08-class-delete-unguarded', O + 'resource_class.py',
+      "        if num_inv:\n            raise exception.ResourceClassInUse(resource_class=name)\n",
+      "", 'R8.2'),
+    M('c08-trait-guard-after-delete', O + 'trait.py',
+      "        num = context.session.query(models.ResourceProviderTrait).filter(\n"
+      "            models.ResourceProviderTrait.trait_id == _id).count()\n"
+      "        if num:\n            raise exception.TraitInUse(name=name)\n\n"
+      "        res = context.session.query(models.Trait).filter_by(\n            name=name).delete()\n",
+      "        res = context.session.query(models.Trait).filter_by(\n            name=name).delete()\n"
+      "        num = context.session.query(models.ResourceProviderTrait).filter(\n"
+      "            models.ResourceProviderTrait.trait_id == _id).count()\n"
+      "        if num:\n            LOG.warning('trait %s still in use', name)\n",
+      'R8.2'),
+    M('c08-provider-delete-skips-alloc-check', RP,
+      "        if rp_allocations:\n            raise exception.ResourceProviderInUse()\n",
+      "        if rp_allocations and rp_allocations > 1:\n            pass\n",
+      'R8.2'),
+    M('c08-child-check-dropped', RP,
+      "        if _has_child_providers(context, _id):\n            raise exception.CannotDeleteParentResourceProvider()\n",
+      "", 'R8.2'),
+    M('c08-unknown-trait-not-rejected', H + 'trait.py',
+      "    if non_existed_trait:\n        raise webob.exc.HTTPBadRequest(\n"
+      "            \"No such trait %s\" % ', '.join(non_existed_trait))\n",
+      "", 'R8.4'),
+    M('c08-guard-other-table', RP,
+      "    allocation_query = sa.select(\n        _ALLOC_TBL.c.resource_class_id.label('resource_class'),\n    ).where(\n"
+      "        sa.and_(_ALLOC_TBL.c.resource_provider_id == rp.id,\n"
+      "                _ALLOC_TBL.c.resource_class_id.in_(to_delete))\n"
+      "    ).group_by(_ALLOC_TBL.c.resource_class_id)",
+      "    allocation_query = sa.select(\n        _INV_TBL.c.resource_class_id.label('resource_class'),\n    ).where(\n"
+      "        sa.and_(_INV_TBL.c.resource_provider_id == rp.id,\n"
+      "                _INV_TBL.c.total < 0)\n"
+      "    ).group_by(_INV_TBL.c.resource_class_id)", 'R8.2'),
+    B('c08-benign-reorder-cascade', RP,
+      "        # Delete any aggregate associations for the resource provider\n"
+      "        # The name substitution on the next line is needed to satisfy pep8\n"
+      "        RPA_model = models.ResourceProviderAggregate\n"
+      "        context.session.query(RPA_model).filter(\n"
+      "            RPA_model.resource_provider_id == _id).delete()\n"
+      "        # delete any trait associations for the resource provider\n"
+      "        RPT_model = models.ResourceProviderTrait\n"
+      "        context.session.query(RPT_model).filter(\n"
+      "            RPT_model.resource_provider_id == _id).delete()\n",
+      "        RPT_model = models.ResourceProviderTrait\n"
+      "        context.session.query(RPT_model).filter(\n"
+      "            RPT_model.resource_provider_id == _id).delete()\n"
+      "        RPA_model = models.ResourceProviderAggregate\n"
+      "        context.session.query(RPA_model).filter(\n"
+      "            RPA_model.resource_provider_id == _id).delete()\n"),
+]
